@@ -257,6 +257,8 @@ func replay(check string, raw json.RawMessage, res *ev.Result) {
 	}
 }
 
+var racePass map[string]any
+
 func main() {
 	ev.Main(ev.Spec{
 		Property: prop,
@@ -274,7 +276,11 @@ func main() {
 		Replay:     replay,
 		Shards:     func(tier string) int { return 16 },
 		ShardProcs: 1,
+		Post: func(tier string, res *ev.Result) {
+			racePass = ev.RacePass(res, "TestRaceC17", 2)
+		},
 		Finish: func(tier string, res *ev.Result, cov map[string]any) {
+			cov["race_pass"] = racePass
 			cov["states"] = res.Counters["tree_nodes"]
 			cov["transitions"] = res.Counters["steps"]
 			cov["traces_validated_against_impl"] = res.Counters["executions"]
